@@ -113,7 +113,12 @@ def lower1(ctx) -> List[Ob]:
     subj = chains[0][0]
     # the dispatch may be one chain or several guarded blocks in sequence (`if BoolOp: .. return` then a chain
     # for the rest): every arm of every chain over the parameter counts
-    arms = [a for _s, arms_ in chains for a in arms_]
+    arms = []
+    for _s, arms_ in chains:
+        for a in arms_:
+            # (a guard sequence and the chain that follows it are reported as two chains that share arms)
+            if not any(a.node is b.node and a.test is b.test for b in arms):
+                arms.append(a)
     for arm in arms:
         if arm.test is None:
             continue
@@ -506,8 +511,12 @@ def lower6(ctx) -> List[Ob]:
             # (b') the same, with the filter in the iterable: for k in [k for k in self if k not in R]: pop(k)
             if reason is None and kname:
                 for anc in A.ancestors(d):
-                    if isinstance(anc, ast.For) and A.unparse(anc.target) == kname:
-                        it_ = anc.iter
+                    comp_site = isinstance(anc, (ast.SetComp, ast.ListComp)) and len(anc.generators) == 1 and not anc.generators[0].ifs and A.unparse(anc.generators[0].target) == kname
+                    if isinstance(anc, ast.For) and A.unparse(anc.target) == kname or comp_site:
+                        # (the deletions may also be spelt as the elements of a display: {self.pop(k) for k in doomed})
+                        it_ = anc.generators[0].iter if comp_site else anc.iter
+                        if comp_site:
+                            anc = A.enclosing_stmt(anc) or anc
                         if isinstance(it_, ast.Call) and isinstance(it_.func, ast.Name) and it_.func.id in ("list", "tuple", "sorted") and it_.args:
                             it_ = it_.args[0]
                         if isinstance(it_, ast.Name):
